@@ -10,8 +10,11 @@ Inductive case :=
     (* each part: map(fixed_indices=part, cleanup=False) on the same folder, then one full run *)
 | CLearners (q : req) (split : bool) (order : list (nat * nat * nat)) (rev_points : bool)
     (* create_learners(split_independent_axes=split); learners (key, generation, position) run in `order` *)
-| CRange (n : nat).
+| CRange (n : nat)
     (* slice(a,b,c).indices(n) for a,b,c in {None,-4..4}; seq[k] for k in -6..6 *)
+| CLink (q : req).
+    (* link between the two models: Model/MapRun.map_run (C01) and map_run_sel on the empty store without a request
+       give the same observation (outputs, stored arrays, number of calls / error class) *)
 
 (* ------------------------------------------------------------------ rendering *)
 Definition sx_val (v : val) : sx :=
@@ -125,6 +128,26 @@ Definition run_range (n : nat) : sx :=
             end) zvals) zvals) zvals);
       SL (map (fun k => match norm_int (Z.of_nat k - 6)%Z n with Ok i => SN i | Err e => SErr e end) (seq 0 13))].
 
+(* the observation of C01 (Corr/Run_C01.v) computed from either model *)
+Definition obs_map_run (q : req) : sx :=
+  match map_run sym_body (q_funcs q) (q_inputs q) (q_internal q) with
+  | Ok st => SL [SS (s "ok");
+                 SL (map (fun x => SL [SS (fst (fst x)); sx_val (snd (fst x)); sx_val (snd x)])
+                         (flat_map (fun o => filter (fun x => str_eqb (fst (fst x)) o) (r_out st)) (out_names q)));
+                 SN (r_calls st)]
+  | Err e => SErr e
+  end.
+Definition obs_map_run_sel (q : req) : sx :=
+  match mk_ctx q, map_run_sel sym_body (q_funcs q) (q_inputs q) (q_internal q) None empty_store with
+  | Ok cx, ROk ps =>
+      match sx_results cx ps with
+      | Ok r => SL [SS (s "ok"); r; SN (length (call_strs (p_tr ps)))]
+      | Err e => SErr e
+      end
+  | _, RErr e _ => SErr e
+  | Err e, _ => SErr e
+  end.
+
 Definition run (c : case) : sx :=
   match c with
   | CParts q parts =>
@@ -134,6 +157,7 @@ Definition run (c : case) : sx :=
       end
   | CLearners q split order rev_points => run_learners_case q split order rev_points
   | CRange n => run_range n
+  | CLink q => SB (sx_eqb (obs_map_run q) (obs_map_run_sel q))
   end.
 
 (* ------------------------------------------------------------------ the executable statement *)
@@ -340,4 +364,5 @@ Definition spec_ok (c : case) (obs : sx) : bool :=
       | Some o => learners_ok q o split order obs
       end
   | CRange _ => true
+  | CLink _ => true
   end.
